@@ -16,6 +16,7 @@ INVARIANT SyncEmptyIsFull
 PROPERTY FailureIsNoop
 PROPERTY FrameOther
 PROPERTY AppendOnly
+PROPERTY StartPreserves
 PROPERTY CondRespected
 CONSTRAINT StateConstraint
 VIEW View
